@@ -222,6 +222,22 @@ def step (line : String) : String :=
       let old := (j.getObjValAs? Bool "old").toOption.getD false
       let post := if old then (Shared.emitClassOld ir).2 else (Shared.emitPure ir).2
       (Json.mkObj [("ok", irToJson post)]).compress
+    | .ok "rewrite_names" =>
+      let t := A.nodeOfJson ((j.getObjVal? "tree").toOption.getD Json.null)
+      let ps := A.searchOfJson ((j.getObjVal? "names").toOption.getD Json.null)
+      (Json.mkObj [("ok", A.nodeToJson (PyAst.Body.rwNode ps t))]).compress
+    | .ok "emit_body" =>
+      let items (k : String) : List PyAst.Item := match j.getObjVal? k with
+        | .ok (Json.arr a) => a.toList.map fun it => PyAst.Item.node (A.nodeOfJson it)
+        | _ => []
+      let doc : PyAst.Item := .node (A.nodeOfJson ((j.getObjVal? "doc").toOption.getD Json.null))
+      let ret : Option PyAst.Item := match j.getObjVal? "ret" with
+        | .ok Json.null => none
+        | .ok r => some (.node (A.nodeOfJson r))
+        | _ => none
+      let body := PyAst.Body.parseBody (items "stmts")
+      let out := PyAst.Body.emitBody doc body ret
+      (Json.mkObj [("ok", Json.arr (out.map A.itemToJson).toArray)]).compress
     | .ok "conform" =>
       let b (k : String) := (j.getObjValAs? Bool k).toOption.getD false
       let o : Conform.Obs := { fileExists := b "exists", found := b "found", cmpEq := b "cmp_eq",
